@@ -192,6 +192,41 @@ fn tables() -> Vec<Vec<Tok>> {
 
 const INSTRS: [i64; 9] = [0, 1, -1, 2, 3, 4, -2, -3, -4];
 
+/// child process: decoders with max_atom_len = usize::MAX on blobs that declare huge atoms
+pub fn huge_child(which: usize) -> i32 {
+    // cap the address space at 3 GiB so that a huge pre-allocation fails fast instead of being zero-filled
+    unsafe {
+        let lim = libc::rlimit { rlim_cur: 3 << 30, rlim_max: 3 << 30 };
+        libc::setrlimit(libc::RLIMIT_AS, &lim);
+    }
+    let blobs = huge_blobs();
+    let body = &blobs[which];
+    let mut blob = MAGIC.to_vec();
+    blob.extend_from_slice(body);
+    let mut a = Allocator::new();
+    for strict in [true, false] {
+        let _ = deserialize_2026(&mut a, &blob, usize::MAX, strict);
+        let mut cur = Cursor::new(&body[..]);
+        let _ = deserialize_2026_body_from_stream(&mut a, &mut cur, usize::MAX, strict);
+        let _ = serialized_length_serde_2026(&blob, usize::MAX, strict);
+    }
+    0
+}
+pub fn huge_blobs() -> Vec<Vec<u8>> {
+    let mut v = vec![];
+    for len in [(1i64 << 55) - 1, 1 << 40, 1 << 33, (1 << 31) + 7] {
+        // one group, one atom of `len` bytes declared, 3 bytes present
+        v.push(render(&[Tok::V(1), Tok::V(len), Tok::Raw(vec![1, 2, 3]), Tok::V(1), Tok::V(2)], None));
+        // negative header with a count
+        v.push(render(&[Tok::V(1), Tok::V(-len), Tok::V(2), Tok::Raw(vec![1, 2, 3])], None));
+    }
+    // huge group / instruction counts
+    v.push(render(&[Tok::V((1i64 << 55) - 1)], None));
+    v.push(render(&[Tok::V(0), Tok::V((1i64 << 55) - 1), Tok::V(0)], None));
+    v.push(render(&[Tok::V(1), Tok::V(-1), Tok::V((1i64 << 55) - 1), Tok::Raw(vec![1, 2, 3])], None));
+    v
+}
+
 pub fn run(ctx: &Ctx) -> Report {
     let mut rep = Report::new("C20", "model_checking");
     let seed = ctx.seed;
@@ -379,7 +414,20 @@ pub fn run(ctx: &Ctx) -> Report {
         acc.maybe_sample(sample_key(seed, i), || json!({"body": hx(&body), "tokens": format!("{toks:?}")}));
     });
     rep.absorb(acc);
-    rep.evaluations = rep.acc.get("tree_cases") + rep.acc.get("decode_calls");
+    // (d) max_atom_len = usize::MAX: blobs that declare atoms of 2^31..2^55 bytes, in a child process
+    //     (an allocation failure aborts the process, which would take the whole check down)
+    {
+        let exe = std::env::current_exe().unwrap();
+        for (i, b) in huge_blobs().iter().enumerate() {
+            let out = std::process::Command::new(&exe).args(["C20HUGE", &i.to_string()]).env("VH_RLIMIT_AS", "1").output();
+            rep.acc.inc("huge_declared_length_cases");
+            let ok = out.as_ref().map(|o| o.status.code() == Some(0)).unwrap_or(false);
+            if !ok {
+                rep.acc.violation(format!("body {} max_atom_len=usize::MAX", hx(b)), format!("decoder process ended with {:?}: a declared atom length is pre-allocated before any byte of it is read", out.map(|o| (o.status.to_string(), String::from_utf8_lossy(&o.stderr).chars().take(200).collect::<String>()))));
+            }
+        }
+    }
+    rep.evaluations = rep.acc.get("tree_cases") + rep.acc.get("decode_calls") + rep.acc.get("huge_declared_length_cases");
     rep.nontrivial = rep.acc.get("tree_cases") + rep.acc.get("accepted");
     rep.states = rep.acc.get("tree_cases") + rep.acc.get("bodies") + rep.acc.get("token_blobs") + rep.acc.get("token_blobs_overlong");
     rep.transitions = rep.evaluations;
